@@ -270,6 +270,28 @@ def check_property(prop, tier):
                     lines.append("VIOLATION property=%s replay=%s" % (prop, rp))
             except Exception as e:  # infrastructure trouble is never an alarm
                 undecided.append("bounded stand-in could not run: %r" % (e,))
+    # Same idea for the VM properties: when a function of theirs can no longer be decided (lost anchor, text outside
+    # the dialect), the small program corpus runs on the real quiv binary built from this tree.  A program that
+    # misbehaves is a violation with a replayable input; none found leaves the property undecided (exit 2).
+    if prop in ("C06", "C13", "C16") and not violations:
+        und_units = [u for u in units if any(("does not compile" in x or x.startswith("extract")) for x in results[u].infra)
+                     or any(ob.get("kind") == "fn" and ob.get("status") == "undecided" and (spec["units"][u][0] is None or ob.get("qual") in spec["units"][u][0]) for ob in results[u].obligations.values())]
+        if und_units:
+            try:
+                from . import progsearch
+
+                rep = progsearch.search(prop)
+                standin = {"bounded": True, "ran_because_undecided": und_units, "programs_run_on_real_binary": rep["runs"], "failing_programs": len(rep["failures"])}
+                for n, f in enumerate(rep["failures"][:5]):
+                    rp = os.path.join(REPLAYS, "%s_standin_program_%d.json" % (prop, n))
+                    with open(rp, "w") as fh:
+                        json.dump({"property": prop, "obligation": "bounded_standin::program:" + f["program"], "class": "functional",
+                                   "verifier_message": "the deductive check is undecided on this tree (%s); a program of the bounded corpus misbehaves on the real binary" % ", ".join(und_units),
+                                   "failing_expression": None,
+                                   "counterexample": {"found": True, "input": {"builtin": "program:" + f["program"], "args": [f["source"]], "rope_shape": "-", "expected": ["see why"], "observed": {"why": f["why"]}, "call": None}}}, fh, indent=1)
+                    lines.append("VIOLATION property=%s replay=%s" % (prop, rp))
+            except Exception as e:  # infrastructure trouble is never an alarm
+                undecided.append("bounded program stand-in could not run: %r" % (e,))
     for oid, f, r in violations:
         keyv = (oid, f["class"], f.get("expr"))
         if keyv in seen_v:
